@@ -54,6 +54,17 @@ impl Hist {
         for x in self.init.iter_mut() { x.0 -= d; x.1 -= d; }
         for o in self.ops.iter_mut() { if let Op::Insert(s, e, _) = o { *s -= d; *e -= d; } }
     }
+    pub fn shift_up(&mut self, d: u64) {
+        for x in self.init.iter_mut() { x.0 += d; x.1 += d; }
+        for o in self.ops.iter_mut() { if let Op::Insert(s, e, _) = o { *s += d; *e += d; } }
+    }
+    pub fn max_stop(&self) -> u64 { self.all_intervals().iter().map(|x| x.1).max().unwrap_or(0) }
+    /// move the whole history so that its greatest stop is `u64::MAX - 1 - slack`: start + max_len
+    /// then exceeds the coordinate type for every interval shorter than the longest one
+    pub fn lift_to_top(&mut self, slack: u64) {
+        let m = self.max_stop();
+        self.shift_up(u64::MAX - 1 - slack - m);
+    }
     pub fn min_start(&self) -> u64 { self.all_intervals().iter().map(|x| x.0).min().unwrap_or(0) }
 }
 
@@ -129,6 +140,9 @@ pub fn exhaustive_hists(max_n: usize, m: u64, zero_len: bool, merges: bool) -> V
                 ops = with_vals[1..].iter().map(|x| Op::Insert(x.0, x.1, x.2)).collect();
                 ops.insert(0, Op::Merge); ops.push(Op::SetCov); ops.push(Op::Merge);
                 out.push(Hist { init: with_vals[..1].to_vec(), ops });
+                // all but the last in bulk, merged, then the last one inserted into the merged set
+                let k = with_vals.len() - 1;
+                out.push(Hist { init: with_vals[..k].to_vec(), ops: vec![Op::Merge, Op::Insert(with_vals[k].0, with_vals[k].1, with_vals[k].2)] });
             }
         }
     }
